@@ -1043,6 +1043,11 @@ class Gen:
             rows.insert(r.randrange(len(rows) + 1), keep)
         if r.random() < 0.25 and rows:
             rows.append(list(rows[0]))  # duplicate row: multiplicity
+        x = r.random()
+        if x < 0.05:
+            return ["values", vs, []]                           # VALUES ?x { }: the empty multiset
+        if x < 0.09:
+            return ["values", [], [[]] * r.choice([1, 1, 2])]   # VALUES () { () }: empty solutions (join identity)
         return ["values", vs, rows]
 
     def group(self, depth, outer=frozenset(), first_tri=0.8, pool=None):
@@ -1711,8 +1716,8 @@ def encode_rdflib_algebra(p):
         return f"(graph {_enc_pos(p.term)} {encode_rdflib_algebra(p.p)})"
     if n == "ToMultiSet":
         inner = p.p
-        if isinstance(inner, list):  # VALUES with no variables / no rows translate to a bare list
-            raise ValueError("empty VALUES block is outside the modelled fragment (evalMultiset raises on it)")
+        if isinstance(inner, list):  # before fix C04-F16 VALUES with no variables / no rows translated to a bare list
+            raise ValueError("ToMultiSet of a bare list: translateValues did not build a values node")
         if inner.name == "values":
             res = inner.res
             vs = []
